@@ -31,12 +31,16 @@ def must_see(tier):
     for e in TX_EVENTS:
         m['commit-after:' + e] = 1
         m['abort-after:' + e] = 1
+    for impl in ('c', 'py'):
+        m[impl + ':reopened'] = 30
+        m[impl + ':reopened-with-other-node-sizes'] = 10
+        m[impl + ':load-refused'] = 10
     return m
 
 
 def plan(tier, seed):
     specs = []
-    nh = 5 if tier == 'quick' else 500
+    nh = 12 if tier == 'quick' else 500
     for fam in families.FAMILY_NAMES:
         for impl in ('c', 'py'):
             specs.append(dict(label='%s-%s' % (fam, impl), family=fam,
@@ -46,7 +50,8 @@ def plan(tier, seed):
     return specs
 
 
-def reader_check(storage, root_oid, impl2, is_mapping, is_tree, want):
+def reader_check(storage, root_oid, impl2, is_mapping, is_tree, want,
+                 sizes=True):
     """Load the stored records into a fresh cache. -> (errors, contents)"""
     conn2 = minidb.Connection(storage, impl2)
     conn2.log_events = False
@@ -62,7 +67,7 @@ def reader_check(storage, root_oid, impl2, is_mapping, is_tree, want):
         errs.append(('reader-contents', 'reader sees %s, writer had %s' % (
             brief(got, 300), brief(want, 300))))
     if is_tree:
-        serrs, w = hist.structural_checks(r, is_mapping)
+        serrs, w = hist.structural_checks(r, is_mapping, sizes=sizes)
         errs.extend(serrs)
     return errs
 
@@ -94,6 +99,9 @@ def run_history(fam, kind, impl, rng, rec, h):
         ls.g.values = [v for v in ls.g.values if families.f32(v) == v]
     ls.fault_conn = conn
     ls.p_refuse = 0.03
+    # a load refused inside a single-key call (unchanged or completed, and
+    # announced accordingly: the next commit / abort is judged as usual)
+    ls.p_loadfail = 0.04
     committed = ls.m.copy()
     tx_events = set()
     n = rng.randint(40, 160) if sizes else rng.randint(30, 80)
@@ -175,7 +183,7 @@ def run_history(fam, kind, impl, rng, rec, h):
                 rec.ev('commit-only-leaf-registered')
             impl2 = impl if ncommit % 2 else ('py' if impl == 'c' else 'c')
             errs = reader_check(storage, root_oid, impl2, is_mapping, is_tree,
-                                want)
+                                want, sizes=ls.check_sizes)
             for e in sorted(tx_events):
                 rec.ev('commit-after:' + e)
             if 'back-to-one-leaf' in tx_events:
@@ -213,6 +221,27 @@ def run_history(fam, kind, impl, rng, rec, h):
             if inline:
                 # the stored database would be F22-damaged later on
                 rec.ev('f22-shape-committed-clean')
+            elif not f34[0] and rng.random() < 0.12:
+                # ---- a new session: the application is restarted, the
+                # writer continues on a freshly opened connection (every
+                # node a ghost) - and, for trees, possibly with other node
+                # sizes configured (a legal setting: nodes written under the
+                # old sizes may now be over-full and are split by the first
+                # insertion that passes through them)
+                conn = minidb.Connection(storage, impl)
+                c = conn.get(root_oid)
+                ls.c = c
+                ls.fault_conn = conn
+                ls.walk = None
+                owned.clear()
+                rec.ev(impl + ':reopened')
+                if is_tree and sizes and rng.random() < 0.6:
+                    sizes = gen.NODE_SIZES[rng.randrange(len(gen.NODE_SIZES))]
+                    harness.set_node_sizes(type(c), *sizes)
+                    ls.sizes = sizes
+                    ls.g.max_leaf = sizes[0]
+                    ls.check_sizes = False
+                    rec.ev(impl + ':reopened-with-other-node-sizes')
         elif r < p_commit + p_abort:
             # ---- abort --------------------------------------------------
             conn.abort()
@@ -235,7 +264,8 @@ def run_history(fam, kind, impl, rng, rec, h):
                              tx_events=sorted(tx_events))
                 return
             if is_tree:
-                serrs, w = hist.structural_checks(c, is_mapping)
+                serrs, w = hist.structural_checks(c, is_mapping,
+                                                  sizes=ls.check_sizes)
                 if serrs:
                     ls.violation('abort-left-damaged-tree', errors=serrs[:3])
                     return
